@@ -34,6 +34,7 @@ type locker interface {
 	unlockSplit(keys []int, write, multi bool)
 	multi() bool // has Locks/RLocks
 	raw() interface{}
+	keyVal(k int) interface{} // the key value index k stands for (as the verification hooks want it)
 }
 
 type anyLocker struct {
@@ -64,6 +65,7 @@ func (a *anyLocker) unlock(keys []int, write, _ bool) {
 func (a *anyLocker) unlockSplit(keys []int, write, multi bool) { a.unlock(keys, write, multi) }
 func (a *anyLocker) multi() bool                               { return false }
 func (a *anyLocker) raw() interface{}                          { return a.l }
+func (a *anyLocker) keyVal(k int) interface{}                  { return a.key(k) }
 
 type tLocker[T comparable] struct {
 	l    keylock.TLocker[T]
@@ -111,8 +113,9 @@ func (a *tLocker[T]) unlockSplit(keys []int, write, multi bool) {
 		a.unlock([]int{k}, write, false)
 	}
 }
-func (a *tLocker[T]) multi() bool      { return true }
-func (a *tLocker[T]) raw() interface{} { return a.l }
+func (a *tLocker[T]) multi() bool              { return true }
+func (a *tLocker[T]) raw() interface{}         { return a.l }
+func (a *tLocker[T]) keyVal(k int) interface{} { return a.conv(k) }
 
 type Config struct {
 	Type   string `json:"type"` // KeyLocker | KeyLockerGrp | KeyLockerGrpX | TKeyLocker | TKeyLockerGrp | TKeyLockerGrpX
@@ -127,6 +130,10 @@ type Config struct {
 	// Perm (optional, a permutation of 0..NKeys-1): key i has the value Base + Perm[i]*Stride. The one global order
 	// of a case is the order of the key indexes - with a permutation it is NOT ascending by value.
 	Perm []int `json:"perm,omitempty"`
+	// Kinds (optional; KeyLocker and TKeyLocker - then instantiated with T = any - only; one index into kindTable
+	// per key, duplicate-free): key i is kindTable[Kinds[i]] - nil, floats, bools, arrays, structs, pointers, channels,
+	// named types and the strings they print as. All of them are different keys.
+	Kinds []int `json:"kinds,omitempty"`
 }
 
 // rank is the multiplier of key i.
@@ -143,7 +150,24 @@ func (c Config) valid() bool {
 	default:
 		return false
 	}
-	return c.Shards >= 1 && c.Shards <= 100000 && c.NKeys >= 1 && c.NKeys <= 64 && c.Stride >= 1 && c.Stride <= 1000 && c.Base >= -(1<<62) && c.Base <= 1<<62 && c.permOK()
+	return c.Shards >= 1 && c.Shards <= 100000 && c.NKeys >= 1 && c.NKeys <= 64 && c.Stride >= 1 && c.Stride <= 1000 && c.Base >= -(1<<62) && c.Base <= 1<<62 && c.permOK() && c.kindsOK()
+}
+
+func (c Config) kindsOK() bool {
+	if len(c.Kinds) == 0 {
+		return true
+	}
+	if len(c.Kinds) != c.NKeys || (c.Type != "KeyLocker" && c.Type != "TKeyLocker") || c.StrKey || c.TypeMix {
+		return false
+	}
+	seen := map[int]bool{}
+	for _, k := range c.Kinds {
+		if k < 0 || k >= len(kindTable) || seen[k] {
+			return false
+		}
+		seen[k] = true
+	}
+	return true
 }
 
 func (c Config) permOK() bool {
@@ -169,12 +193,16 @@ func (c Config) build() locker {
 	sconv := func(k int) string { return fmt.Sprintf("k%d", c.Base+c.rank(k)*c.Stride) }
 	switch c.Type {
 	case "KeyLocker":
-		return &strideAny{anyLocker{l: keylock.NewKeyLocker(), str: c.StrKey}, c.Stride, c.Base, c.TypeMix, c.rank}
+		return &strideAny{anyLocker{l: keylock.NewKeyLocker(), str: c.StrKey}, c.Stride, c.Base, c.TypeMix, c.rank, c.Kinds}
 	case "KeyLockerGrp":
-		return &strideAny{anyLocker{l: keylock.NewKeyLockeGrp(opt), str: c.StrKey}, c.Stride, c.Base, c.TypeMix, c.rank}
+		return &strideAny{anyLocker{l: keylock.NewKeyLockeGrp(opt), str: c.StrKey}, c.Stride, c.Base, c.TypeMix, c.rank, nil}
 	case "KeyLockerGrpX":
-		return &strideAny{anyLocker{l: keylock.NewXHashKeyLockeGrp(opt), str: c.StrKey}, c.Stride, c.Base, c.TypeMix, c.rank}
+		return &strideAny{anyLocker{l: keylock.NewXHashKeyLockeGrp(opt), str: c.StrKey}, c.Stride, c.Base, c.TypeMix, c.rank, nil}
 	case "TKeyLocker":
+		if len(c.Kinds) > 0 {
+			kinds := c.Kinds
+			return &tLocker[any]{l: keylock.NewTKeyLocker[any](), conv: func(k int) any { return kindTable[kinds[k]] }}
+		}
 		if c.StrKey {
 			return &tLocker[string]{l: keylock.NewTKeyLocker[string](), conv: sconv}
 		}
@@ -197,6 +225,7 @@ type strideAny struct {
 	stride, base int
 	typeMix      bool
 	rank         func(int) int
+	kinds        []int
 }
 
 // mixKinds: the dynamic types one number is handed in as under TypeMix (seven different keys of an interface{}-keyed
@@ -204,6 +233,9 @@ type strideAny struct {
 const mixKinds = 7
 
 func (s *strideAny) keyOf(k int) interface{} {
+	if len(s.kinds) > 0 {
+		return kindTable[s.kinds[k]]
+	}
 	if !s.typeMix || s.str {
 		return s.anyLocker.key(s.base + s.rank(k)*s.stride)
 	}
@@ -224,6 +256,8 @@ func (s *strideAny) keyOf(k int) interface{} {
 	}
 	return v
 }
+
+func (s *strideAny) keyVal(k int) interface{} { return s.keyOf(k) }
 
 func (s *strideAny) lock(keys []int, write, multi bool) {
 	k := s.keyOf(keys[0])
@@ -253,8 +287,8 @@ func genConfig(t *rapid.T) Config {
 	// sometimes many keys, so that multi-key lists get long (> 12 keys) and several of them share a shard
 	if rapid.IntRange(0, 5).Draw(t, "manykeys") == 0 {
 		c.NKeys = rapid.IntRange(14, 24).Draw(t, "nkeysmany")
-		if rapid.IntRange(0, 3).Draw(t, "verymany") == 0 {
-			c.NKeys = rapid.IntRange(34, 48).Draw(t, "nkeysverymany") // lists beyond 32 keys
+		if rapid.IntRange(0, 2).Draw(t, "verymany") == 0 {
+			c.NKeys = rapid.IntRange(34, 64).Draw(t, "nkeysverymany") // lists beyond 32 keys
 		}
 	}
 	// stride 1: neighbours spread over the shards; stride == shards: all keys in one shard
@@ -265,6 +299,11 @@ func genConfig(t *rapid.T) Config {
 	// the one global order of the case need not be ascending by value
 	if rapid.IntRange(0, 3).Draw(t, "permuted") == 0 {
 		c.Perm = rapid.Permutation(seqInts(c.NKeys)).Draw(t, "perm")
+	}
+	// unsharded lockers take any comparable key: nil, floats, bools, arrays, structs, pointers, ... - and the strings
+	// these print as are other keys
+	if (c.Type == "KeyLocker" || c.Type == "TKeyLocker") && !c.StrKey && !c.TypeMix && rapid.Bool().Draw(t, "keykinds") {
+		c.Kinds = genKinds(t, c.NKeys)
 	}
 	return c
 }
@@ -299,6 +338,9 @@ func (c Config) nestOK() bool {
 func genKeyList(t *rapid.T, nkeys int, multi bool) []int {
 	if !multi || rapid.IntRange(0, 9).Draw(t, "single") < 5 {
 		return []int{rapid.IntRange(0, nkeys-1).Draw(t, "key")}
+	}
+	if nkeys > 12 && rapid.IntRange(0, 5).Draw(t, "full") == 0 {
+		return seqInts(nkeys) // the whole key set in one call
 	}
 	var ks []int
 	dense := nkeys > 12 && rapid.Bool().Draw(t, "dense") // long lists: most keys taken
@@ -366,7 +408,25 @@ func GenCtl(t *rapid.T) CaseCtl {
 	c := CaseCtl{Config: genConfig(t)}
 	var actors []*genActor
 	n := rapid.IntRange(4, 24).Draw(t, "nsteps")
+	var tail []int // the last keys of the long list of the previous step
 	for i := 0; i < n; i++ {
+		if len(tail) > 0 && rapid.Bool().Draw(t, "probetail") {
+			// a single call on one of the last keys of the long list just issued
+			a := &genActor{keys: []int{rapid.SampledFrom(tail).Draw(t, "tailkey")}, write: rapid.IntRange(0, 3).Draw(t, "tailwrite") != 0}
+			actors = append(actors, a)
+			c.Steps = append(c.Steps, Step{Op: "lock", Actor: len(actors) - 1, Write: a.write, Keys: a.keys})
+			tail = nil
+			continue
+		}
+		tail = nil
+		if i == 0 && c.NKeys >= 40 && isMultiType(c.Type) && rapid.Bool().Draw(t, "fullfirst") {
+			// the whole key set at once, first thing
+			a := &genActor{keys: seqInts(c.NKeys), write: rapid.IntRange(0, 3).Draw(t, "fullwrite") != 0}
+			actors = append(actors, a)
+			c.Steps = append(c.Steps, Step{Op: "lock", Actor: 0, Write: a.write, Keys: a.keys})
+			tail = a.keys[len(a.keys)-4:]
+			continue
+		}
 		var live []int
 		for ai, a := range actors {
 			if !a.unlocked {
@@ -412,6 +472,9 @@ func GenCtl(t *rapid.T) CaseCtl {
 		st.Actor, st.Keys = len(actors)-1, a.keys
 		if len(a.keys) == 1 && isMultiType(c.Type) {
 			st.Multi = rapid.IntRange(0, 3).Draw(t, "multi1") == 0
+		}
+		if len(a.keys) >= 30 {
+			tail = a.keys[len(a.keys)-4:]
 		}
 		c.Steps = append(c.Steps, st)
 	}
@@ -474,6 +537,16 @@ func ExecCtl(c CaseCtl) *vkit.Result {
 		r.unlockOp = sched.Go(fmt.Sprintf("unlock-%d", ai), func() { lk.unlock(r.keys, r.write, r.multi) })
 	}
 
+	defer func() {
+		if res.Fail != nil && len(c.Kinds) > 0 {
+			// the keys of this case are not numbers: say what they are
+			names := []string{}
+			for i := 0; i < c.NKeys; i++ {
+				names = append(names, fmt.Sprintf("key %d = %T(%#v)", i, lk.keyVal(i), lk.keyVal(i)))
+			}
+			res.Fail.Msg += " [" + c.Type + "; " + strings.Join(names, ", ") + "]"
+		}
+	}()
 	defer func() {
 		if res.Fail != nil {
 			// best effort: let whatever can still finish, finish
@@ -637,6 +710,12 @@ func ExecCtl(c CaseCtl) *vkit.Result {
 			runs = append(runs, r)
 			if len(keys) > 12 {
 				res.Class("multi-key-list>12")
+			}
+			if len(keys) > 44 {
+				res.Class("multi-key-list>44")
+			}
+			if len(c.Kinds) > 0 {
+				res.Class("key-kinds")
 			}
 			if len(keys) > 1 {
 				res.Class("multi-key")
@@ -1071,7 +1150,7 @@ func ExecF21(c CaseF21) *vkit.Result {
 
 var PartCtl = &vkit.Part[CaseCtl]{
 	Property: Property, Name: "controlled",
-	Rule:  "rapid: {KeyLocker | KeyLockerGrp (mod/xxhash) | TKeyLocker | TKeyLockerGrp (mod/xxhash), int or string keys, shards 1/2/3/73, 2-6 (sometimes 14-24) keys spread over or colliding in shards, lists of up to 24 keys} + 4-24 steps (Lock/RLock of one key, Locks/RLocks of a duplicate-free ascending sub-list, unlock by the actor); every call on its own goroutine, quiescence after every step. Oracle (fairness-agnostic): holders observed at quiescence satisfy exclusion on every key of every returned call; a parked call must have a conflicting holder or another waiter on one of its keys; parked calls need some holder; drain must complete everything; 0 entries when nothing is held. Non-trivial: some call had to wait; distinct = distinct case JSON",
+	Rule:  "rapid: {KeyLocker | KeyLockerGrp (mod/xxhash) | TKeyLocker | TKeyLockerGrp (mod/xxhash), int or string keys, shards 1/2/3/73, 2-6 (sometimes 14-24 or 34-64) keys spread over or colliding in shards, lists of up to 64 keys incl. the whole key set in one call, followed by single calls on its last keys; on KeyLocker and TKeyLocker[any] in half of the cases keys of other kinds: nil, floats, bools, arrays, structs, pointers, channels, named types and the strings they print as} + 4-24 steps (Lock/RLock of one key, Locks/RLocks of a duplicate-free ascending sub-list, unlock by the actor); every call on its own goroutine, quiescence after every step. Oracle (fairness-agnostic): holders observed at quiescence satisfy exclusion on every key of every returned call; a parked call must have a conflicting holder or another waiter on one of its keys; parked calls need some holder; drain must complete everything; 0 entries when nothing is held. Non-trivial: some call had to wait; distinct = distinct case JSON",
 	Quick: 2500, Thorough: 15000,
 	Gen: GenCtl, Exec: ExecCtl,
 }
